@@ -430,8 +430,10 @@ def mech_of(what, name, kind, v, text, got, exc=None, pname=None):
         if kind == 'int' and what in ('parse_rejected', 'roundtrip_crash') and isinstance(exc, Exception) \
                 and type(exc).__name__ == 'ValidationError' and xs_bits(name) and text is not None:
             digits = len(str(2 ** xs_bits(name)))
-            if len(text) > digits - 1 and len(text.lstrip('+-').lstrip('0') or '0') <= digits:
-                # text longer than ceil(log10(2**bits)) only because of a sign or redundant zeros
+            canonical = text == str(int(text))
+            if not canonical and len(text) > digits - 1 and len(text.lstrip('+-').lstrip('0') or '0') <= digits:
+                # a literal with an explicit '+' or redundant leading zeros, longer than the canonical literals of the type can be
+                # (the canonical ones - what spyne itself writes, '-128' included - are not part of this finding)
                 return 'bounded_int_max_str_len_counts_sign_and_zeros'
         if pname == 'Soap11' and name == 'Date.fmt' and what == 'roundtrip_crash' and type(exc).__name__ == 'ValidationError':
             return 'soap11_date_format_print_not_iso'
